@@ -402,6 +402,23 @@ fn gen_dag(r: &mut Rng, sorted_ids: bool, stats: &mut Stats) -> (MigrationState,
             mined_h: base.saturating_sub(20) + r.below(span as u64 + 20) as u32,
         });
     }
+    if n > 1 && r.chance(1, 4) {
+        // reverse the dependency direction: ids are mirrored and the rows reversed, so ids stay
+        // ascending while every dependency now points to a LATER row (the kernel's dead-set
+        // passes then need more than one sweep over the rows)
+        let k = txs.iter().map(|t| t.id).max().unwrap();
+        for t in txs.iter_mut() {
+            t.id = k - t.id;
+            t.txid = 100 + t.id;
+            for d in t.deps.iter_mut() {
+                if *d <= k {
+                    *d = k - *d;
+                }
+            }
+        }
+        txs.reverse();
+        stats.reversed += 1;
+    }
     if !sorted_ids && r.chance(1, 3) && n > 1 {
         // a non-canonical row order (positions differ from id order)
         let k = r.below(n as u64) as usize;
@@ -501,6 +518,7 @@ struct Stats {
     persisted: u64,
     rt_fail: u64,
     contract_breaking: u64,
+    reversed: u64,
     tx_counts: BTreeMap<usize, u64>,
     panics: u64,
 }
@@ -812,6 +830,96 @@ fn run_sequence(r: &mut Rng, mut s: MigrationState, base: u32, len: usize, mut p
     }
 }
 
+
+/// One `advance_migration` call on `s` with an all-satisfiable store, emitted as a case.
+fn advance_case(s: &MigrationState, scanned: u32, est: u32, stats: &mut Stats) {
+    let pre = p_state(s);
+    let mut store = Store { answers: BTreeMap::new(), default: Ans::Sat(scanned.saturating_sub(1)), mined: BTreeMap::new(), replaced: 0, queries: 0 };
+    let mut rng = ScriptRng { ages: vec![2, 1], pos: 0 };
+    let mut s2 = s.clone();
+    let a = advance_migration(&mut store, &mut s2, DuenessTargets::new(h(scanned), h(est)), &AdvanceConfig::new(ReorgSettleDepth::new(10)), &mut rng).unwrap();
+    let ev = format!("(EAdvance {} {} [] (Sat {}) [] [2; 1])", scanned, est, scanned.saturating_sub(1));
+    emit(&pre, ev, &s2, format!("(OStep {} {})", p_step(a.step()), boolc(store.replaced > 0)), None);
+    *stats.events.entry("advance_lattice").or_default() += 1;
+}
+
+/// Exhaustive boundary lattices around every guard of the broadcast and prove queues and of the
+/// overdue shift.
+fn lattices(stats: &mut Stats) {
+    const T: u32 = 1000;
+    let base = |id: u32, state: u8| TxSpec {
+        id, kind: MigrationTxKind::Transfer { crossing: 0 }, deps: vec![], sched: T, expiry: 0, anchor: None,
+        txid: 100 + id, unsat: None, fail: None, state, mined_h: T - 50,
+    };
+    // broadcast queue: schedule x expiry x targets x report x mark x dependency state
+    for sched in [T - 1, T, T + 1] {
+        for expiry in [0, T - 6, T - 5, T - 4, T - 1, T, T + 1] {
+            for (scanned, est) in [(T, T), (T - 5, T), (T, T - 5)] {
+                for fail in [None, Some(T - 2)] {
+                    for unsat in [None, Some((T - 3, UnsatisfiableKind::InputsSpent))] {
+                        for dep in [0u8, 4, 3, 9] {
+                            let mut t = base(1, 2);
+                            t.sched = sched;
+                            t.expiry = expiry;
+                            t.fail = fail;
+                            t.unsat = unsat;
+                            let mut txs = vec![];
+                            if dep != 0 {
+                                t.deps = vec![if dep == 9 { 7 } else { 0 }];
+                                if dep != 9 {
+                                    let mut d = base(0, dep);
+                                    d.kind = MigrationTxKind::Preparation { layer: 0, index: 0 };
+                                    txs.push(d);
+                                }
+                            }
+                            txs.push(t);
+                            let s = build_state(MigrationStatus::InProgress, &txs, &[100_000], 100, 144);
+                            advance_case(&s, scanned, est, stats);
+                        }
+                    }
+                }
+            }
+        }
+    }
+    // prove queue: anchor depth at the scanned target, preparation schedule at the served target
+    for anchor in [None, Some(T - 12), Some(T - 11), Some(T - 10), Some(T - 9)] {
+        for sched in [T - 1, T, T + 1, T + 40] {
+            for (scanned, est) in [(T, T), (T - 1, T), (T, T + 1)] {
+                for expiry in [0, T - 1, T, T + 1] {
+                    let mut t = base(1, 1);
+                    t.anchor = anchor;
+                    t.sched = sched;
+                    t.expiry = expiry;
+                    if anchor.is_none() {
+                        t.kind = MigrationTxKind::Preparation { layer: 0, index: 0 };
+                    }
+                    let s = build_state(MigrationStatus::Committed, &[t], &[100_000], 100, 144);
+                    advance_case(&s, scanned, est, stats);
+                }
+            }
+        }
+    }
+    // overdue shift: lag against the tolerance (16 blocks at the 144-block interval, 1 at small ones)
+    for ivl in [144u32, 4, 300] {
+        let tol = std::cmp::max(1, (66u64 * ivl as u64 / 144) as u32 / 4);
+        for lag in [tol - 1, tol, tol + 1, tol + 2, 3 * tol + 7] {
+            for state in [1u8, 2] {
+                let mut a = base(1, state);
+                a.sched = T - lag;
+                a.anchor = Some((T - lag).saturating_sub(3 * ivl) / ivl * ivl);
+                let mut b = base(2, 1);
+                b.sched = T - lag + 5;
+                b.anchor = Some((T - lag).saturating_sub(2 * ivl) / ivl * ivl);
+                let mut c = base(3, 2);
+                c.sched = T + 30;
+                let s = build_state(MigrationStatus::Committed, &[a, b, c], &[100_000, 5], 100, ivl);
+                advance_case(&s, T, T, stats);
+                advance_case(&s, T - 3, T, stats);
+            }
+        }
+    }
+}
+
 /// Hand-written witnesses that must always be in the corpus.
 fn witnesses(stats: &mut Stats) {
     let t = |id: u32, state: u8, deps: Vec<u32>| TxSpec {
@@ -856,6 +964,7 @@ fn main() {
     let persist_every = 5;
 
     witnesses(&mut stats);
+    lattices(&mut stats);
     for i in 0..nseq {
         let persisted = i % persist_every == 0;
         let (s, base) = if r.chance(1, 4) { gen_arb(&mut r, &mut stats) } else { gen_dag(&mut r, persisted, &mut stats) };
@@ -887,12 +996,11 @@ fn main() {
             run_sequence(&mut r, s, base, len, None, &mut stats);
         }
     }
-    eprintln!("sqlite roundtrip total ms: {} open {} replace {}", unsafe { RT_NANOS } / 1_000_000, unsafe { T_OPEN } / 1_000_000, unsafe { T_REPL } / 1_000_000);
     let j = |m: &BTreeMap<&'static str, u64>| -> String {
         format!("{{{}}}", m.iter().map(|(k, v)| format!("\"{}\":{}", k, v)).collect::<Vec<_>>().join(","))
     };
     stat(format!(
-        "{{\"sequences\":{},\"states_dag\":{},\"states_crate_strategy\":{},\"events\":{},\"advance_steps\":{},\"advance_calls_that_shifted\":{},\"sqlite_roundtrips\":{},\"sqlite_roundtrip_failures\":{},\"contract_breaking_events\":{},\"panics\":{},\"tx_count_hist\":{{{}}}}}",
+        "{{\"sequences\":{},\"states_dag\":{},\"states_crate_strategy\":{},\"events\":{},\"advance_steps\":{},\"advance_calls_that_shifted\":{},\"sqlite_roundtrips\":{},\"sqlite_roundtrip_failures\":{},\"contract_breaking_events\":{},\"states_with_forward_dependencies\":{},\"panics\":{},\"tx_count_hist\":{{{}}}}}",
         stats.seqs,
         stats.dag,
         stats.arb,
@@ -902,6 +1010,7 @@ fn main() {
         stats.persisted,
         stats.rt_fail,
         stats.contract_breaking,
+        stats.reversed,
         stats.panics,
         stats.tx_counts.iter().map(|(k, v)| format!("\"{}\":{}", k, v)).collect::<Vec<_>>().join(",")
     ));
